@@ -138,7 +138,9 @@ def applicable_ops(tm, g):
                 if [tm.name(x) for x in tm.ids('NetworkService')].count(tm.name(sv)) == 1:
                     ops.append({'op': 'remove_network_service', 'name': tm.name(sv)})
                 for i in tm.ifaces_of_service(sv):
-                    if g.substrate:
+                    # (the harness addresses a service by its name through the topology-wide view: a name two services carry -
+                    # a switch renamed, its old name given to a new switch, both keep '<old name>-ns' - does not address one)
+                    if g.substrate and [tm.name(x) for x in tm.ids('NetworkService')].count(tm.name(sv)) == 1:
                         ops.append({'op': 'service_remove_interface', 'service': tm.name(sv), 'name': tm.name(i), '_iface_id': i})
     top = tm.top_services()
     for s in top:
